@@ -1,7 +1,7 @@
 (* TieC20.v — facts regenerated from /repo/type/conversion/conversion.go (gen/Facts.v) equal what
    the model Conv.v was written from. *)
 From Coq Require Import List String ZArith NArith Bool.
-From QV Require Import Conv Facts.
+From QV Require Import Conv Facts C20Run.
 Import ListNotations.
 Local Open Scope string_scope.
 
@@ -50,8 +50,41 @@ Proof. reflexivity. Qed.
 Lemma tie_map_calls :
   f_c20_map_calls = ["key, k"; "key, w.MapIndex(k)"] \/ f_c20_map_calls = ["key, k"; "el, w.MapIndex(k)"].
 Proof. (left; reflexivity) || (right; reflexivity). Qed.
-Lemma tie_map_set : f_c20_map_set = ["key.Elem(), el.Elem()"] /\ f_c20_map_new = ["v.Type().Key()"; "v.Type().Elem()"].
-Proof. split; reflexivity. Qed.
+Lemma tie_map_set :
+  (f_c20_map_set = ["key.Elem(), el.Elem()"] \/ f_c20_map_set = ["k, reflect.Value{}"; "key.Elem(), el.Elem()"]) /\
+  f_c20_map_new = ["v.Type().Key()"; "v.Type().Elem()"].
+Proof. split; [(left; reflexivity) || (right; reflexivity) | reflexivity]. Qed.
+
+(* which array convertSlice goes on to fill (conv_slice_into / convert_into): a nil pointer gets a
+   new slice; a slice whose capacity is too short is replaced by a new zeroed one; otherwise the
+   length of the SAME array is set to the source's; then index by index; no other way out *)
+Lemma tie_slice_stmts : f_c20_slice_stmts =
+  [ "if w.Kind() != reflect.Slice { return fmt.Errorf("""", v.Type(), w.Type()) }";
+    "l := w.Len()";
+    "if v.Kind() == reflect.Ptr && v.IsNil() { if !v.CanSet() { return fmt.Errorf("""", v) } v.Set(reflect.MakeSlice(v.Elem().Type(), l, l)) v = v.Elem() }";
+    "if v.Kind() != reflect.Slice { return fmt.Errorf("""", v) }";
+    "if v.Cap() < l { if v.CanSet() == false { return fmt.Errorf("""", v.Cap()) } v.Set(reflect.MakeSlice(v.Type(), l, l)) }";
+    "v.SetLen(l)";
+    "for i := 0; i < l; i++";
+    "return nil" ].
+Proof. reflexivity. Qed.
+
+(* which map convertMap goes on to fill: the pinned text makes a new map only when the destination
+   is nil (switch map_keeps_old_entries), the repaired one (design/C20.fix2.diff) never keeps an
+   entry; then one SetMapIndex per source key; no other way out *)
+Lemma tie_map_stmts :
+  exists prepare, (prepare = map_prepare_pinned \/ prepare = map_prepare_repaired) /\ f_c20_map_stmts =
+  [ "if w.Kind() != reflect.Map { return fmt.Errorf("""", v.Type(), w.Type()) }";
+    "l := w.Len()";
+    "if v.Kind() == reflect.Ptr && v.IsNil() { if !v.CanSet() { return fmt.Errorf("""", v) } v.Set(reflect.MakeMapWithSize(v.Elem().Type(), l)) v = v.Elem() }";
+    "if v.Kind() != reflect.Map { return fmt.Errorf("""", v) }";
+    prepare;
+    "for _, k := range w.MapKeys()";
+    "return nil" ].
+Proof.
+  (exists map_prepare_pinned; split; [left; reflexivity | reflexivity]) ||
+  (exists map_prepare_repaired; split; [right; reflexivity | reflexivity]).
+Qed.
 
 (* convertStruct: for each field of the target, the first field of the source with the same
    lower-cased name (inner loop left by `break`), converted field to field *)
